@@ -382,8 +382,9 @@ def match_known(prop, v, known):
 
 
 def write_replay(prop, tier, k, v, groups, extra=None):
-    os.makedirs(REPLAYS, exist_ok=True)
-    path = os.path.join(REPLAYS, "%s-%s-%d.json" % (prop, tier, k))
+    rdir = os.path.join(WORK, "replays-seedtest") if os.environ.get("VERIF_NO_EVIDENCE") else REPLAYS
+    os.makedirs(rdir, exist_ok=True)
+    path = os.path.join(rdir, "%s-%s-%d.json" % (prop, tier, k))
     g = groups[v["group"]] if v.get("group") is not None and v["group"] < len(groups) else None
     rec = {"property": prop, "tier": tier, "seed": seed_int(), "verdict": {a: b for a, b in v.items() if a != "event"},
            "event": v.get("event"), "group": g, "spec": "TraceBytes",
